@@ -27,6 +27,9 @@ type C15Pod struct {
 	// OwnLabels: the pod keeps its own labels although its owner has other pods (the engine keys cached verdicts by
 	// owner AND label set, precisely so that this is allowed)
 	OwnLabels bool `json:",omitempty"`
+	// Invalid: this version of the pod has no host IP and no pod IPs - the engine rejects it (an error), and a rejected
+	// insert or update changes nothing
+	Invalid bool `json:",omitempty"`
 }
 
 type C15Op struct {
@@ -76,6 +79,7 @@ func genC15Pod(t *rapid.T, l string) C15Pod {
 		}
 		p.OwnLabels = rapid.Bool().Draw(t, l+"ownlabels")
 	}
+	p.Invalid = rapid.IntRange(0, 7).Draw(t, l+"invalid") == 0
 	return p
 }
 
@@ -151,7 +155,9 @@ func genC15(t *rapid.T) *C15Case {
 		case "setRes":
 			np := rapid.IntRange(0, 2).Draw(t, l+"npods")
 			for i := 0; i < np; i++ {
-				op.Pods = append(op.Pods, genC15Pod(t, fmt.Sprintf("%sp%d", l, i)))
+				sp := genC15Pod(t, fmt.Sprintf("%sp%d", l, i))
+				sp.Invalid = false // a failing SetResources ends the case: rejected versions come through InsertObject
+				op.Pods = append(op.Pods, sp)
 			}
 			if rapid.Bool().Draw(t, l+"hasnp") {
 				p := genC15NP(t, l+"np")
@@ -175,6 +181,9 @@ func (p *C15Pod) object() *corev1.Pod {
 	o := &corev1.Pod{ObjectMeta: metav1.ObjectMeta{Name: p.Name, Namespace: p.Ns, Labels: copyMap(p.Labels)},
 		Spec:   corev1.PodSpec{Containers: []corev1.Container{{Name: "c", Ports: []corev1.ContainerPort{{ContainerPort: int32(p.Port), Name: p.PortName}}}}},
 		Status: corev1.PodStatus{HostIP: "192.168.49.2", PodIPs: []corev1.PodIP{{IP: "10.244.1.1"}}}}
+	if p.Invalid {
+		o.Status = corev1.PodStatus{}
+	}
 	if p.Owner != "" {
 		o.OwnerReferences = []metav1.OwnerReference{{Kind: "ReplicaSet", Name: p.Owner, Controller: &tr, APIVersion: "apps/v1"}}
 	}
@@ -355,6 +364,9 @@ func checkC15(c *C15Case, st *VStats) *VFailure {
 		err, f := guard("InsertObject(pod)", func() error { return pe.InsertObject(p.object()) })
 		if f != nil {
 			return false, f
+		}
+		if _, present := m.pods[p.key()]; present && err != nil {
+			st.Class("rejected update of a pod that is present")
 		}
 		if err == nil {
 			m.pods[p.key()] = p
